@@ -380,3 +380,16 @@ func c10absentTagNegative(c *an.Ctx) {
 		r.Fail(f.Name+": absent tag", c.P.Pos(f.Body.Pos()), "matchSeriesKeyTagFilter no longer matches a plain filter's value against the empty string when the series lacks the tag: `tag != 'x'` is not selected for such a series (the index path selects it)")
 	}
 }
+
+func init() {
+	old := All["C10"].Run
+	All["C10"].Run = func(c *an.Ctx) {
+		old(c)
+		mergeIdiom(c, "C10.R8", "tag-set results of several indexes are combined by a merge over the sorted series keys: the smaller side's cursor advances", map[string]int{
+			"engine/index/tsi:SortMergeTagSetInfos": 1,
+			"engine/index/tsi:sortMergeTagSetInfo":  1,
+		}, "a series present in only one index must be carried over and stepped past, otherwise it is dropped or paired with another series")
+	}
+	All["C10"].Rules += " R8"
+	addLevel("C10", "per-index tag-set results are merged over sorted series keys with the smaller side advancing.")
+}
